@@ -52,3 +52,8 @@ Theorem T_recorded_error : forall c s, wf_cfg c = true -> current c = true -> re
   (s_err s = eCtx /\ cancelled s = true) \/
   (delivered s = expected (c_inp c) /\ final_err (c_inp c) = s_err s).
 Proof. intros c s Hwf Hcur H Hne. parts c Hwf Hcur. exact (recorded_error c Hn Hi Hre Hnx s H Hne). Qed.
+
+Theorem T_start_error_wins : forall c s, wf_cfg c = true -> current c = true -> reach c s ->
+  started s = true -> running s = false ->
+  s_err s = c_hdr_err c /\ is_err (s_err s) = true /\ all_done s = true.
+Proof. intros c s Hwf Hcur H Hs Hr. parts c Hwf Hcur. exact (start_error_wins c Hn Hi Hre Hnx s H Hs Hr). Qed.
